@@ -662,6 +662,10 @@ def iter_concrete(it, v):
             return list(c.items)
         if isinstance(c, DictCell) and c.sym is None:
             return [from_py(k) for k in c.items]
+        if isinstance(c, ObjCell) and hasattr(c.cls, '__iter__'):
+            # iterable repository object: its own __iter__ (inlined)
+            return iter_concrete(
+                it, it.call(it.getattr(v, '__iter__'), [], {}))
     return None
 
 
@@ -828,6 +832,21 @@ def call_concrete(it, py, args, kwargs):
                 raise Unsupported('range(n) with n > %d' % K)
             return VConc(range(d))
         return VConc(range(*vals))
+    if py is zip:
+        cols = [iter_concrete(it, a) for a in args]
+        if any(c is None for c in cols):
+            raise Unsupported('zip over a symbolic-length iterable')
+        n = min(len(c) for c in cols) if cols else 0
+        return ctx.alloc(ListCell([VTuple([c[k] for c in cols])
+                                   for k in range(n)]))
+    if py is all or py is any:
+        items = iter_concrete(it, args[0])
+        if items is None:
+            raise Unsupported('all/any over a symbolic-length iterable')
+        conds = [truth(ctx, x) for x in items]
+        if py is all:
+            return VBool(z3.And(conds) if conds else z3.BoolVal(True))
+        return VBool(z3.Or(conds) if conds else z3.BoolVal(False))
     if py is enumerate:
         start = kwargs.get('start', args[1] if len(args) > 1 else VInt(0))
         return VTuple([VConc('enumerate'), args[0], start])
